@@ -235,7 +235,9 @@ func linearComplexity(a []bool, M int) int {
 				P[i] = 0
 			}
 			for j := 0; j < M; j++ {
-				if B_[j] == 1 {
+				// terms of degree >= M can never take part in a later discrepancy; dropping them
+				// also avoids indexing past the end of P for a block such as 0...01
+				if B_[j] == 1 && j+N_-m < M {
 					P[j+N_-m] = 1
 				}
 			}
